@@ -300,7 +300,13 @@ def vector_cases(draw):
     n = draw(st.one_of(st.integers(0, 40), st.integers(0, 600)))
     period = draw(st.sampled_from([1, 5, 7.5, 15, 60]))
     tz = draw(st.sampled_from([None, None, "pytz:America/Los_Angeles", "zoneinfo:America/Los_Angeles", "utc:", "pytz:Europe/Berlin"]))
-    if draw(st.integers(0, 3)) == 0:
+    if draw(st.integers(0, 3)) == 0 and n >= 2:
+        # entry k falls exactly on a rate breakpoint although the start is off the hour
+        k = draw(st.integers(1, n - 1))
+        bp = draw(st.sampled_from([8.0, 8.5, 12.0, 14.0, 16.0, 18.0, 21.0, 21.5, 23.0]))
+        s0 = _dt(start)
+        start = (datetime(s0.year, s0.month, s0.day) + timedelta(hours=bp) - timedelta(seconds=k * period * 60)).strftime("%Y-%m-%dT%H:%M:%S")
+    elif draw(st.integers(0, 3)) == 0:
         # from the evening before a US DST change to the Monday after it
         y = draw(st.integers(2014, 2033))
         d = _dst_sunday(y, draw(st.booleans()))
